@@ -5,8 +5,12 @@
     run time (operands in variables) and printed; stdout compared with the specification's values.
  B. control-flow skeletons (MC_MachineCF): every accepted body over blocks, if/else chains, gotos, labels,
     loops up to the bound, executed by the TLA+ machine; compiled, executed, stdout/exit compared.
- C. random well-typed programs (Rust generator) compiled and executed; the recorded output is validated
-    by TLC running the machine on the logged program (Trace_Machine).
+ P. the caller/callee family (MC_MachinePtr): every parameter kind x argument form x way the callee treats
+    the parameter (one or two parameters, all pointer-writes x view-reads alias pairs); TLC runs the machine
+    and checks non-interference, legality and the machine's monitors as invariants; every program is
+    compiled and executed (stdout compared) or, if the machine refuses it, must be rejected.
+ C. random well-typed programs (Rust generator: stages 1-3 of the design) compiled and executed; the recorded
+    output is validated by TLC running the machine on the logged program (Trace_Machine).
 Every program is rendered in several layouts (whitespace, comments, redundant parentheses, CRLF) that
 must all give the same output.
 """
